@@ -46,12 +46,31 @@ def run(ctx):
     if n == 0:
         ctx.violation('C01.X1', first.name, 'X1:no-log-entry:guard-absent', first.loc,
                       'the "command line not found in log" verdict is gone')
+    # ... and nothing but "generator rule" keeps the command from being compared: with a log entry, a clean verdict of
+    # the first check is reached only through the evaluation of the command hash
+    hashed = [e for e in first.events('call') if (e.get('name') or '').startswith('LazyEdgeCommandHash::operator()')]
+    nh = 0
+    for bid, b in first.blocks.items():
+        for i, s2 in enumerate(b['succ']):
+            if s2 is None:
+                continue
+            if any(p_ is True and mentions_call(a, 'RecomputeOutputsDirtyCache::CachedLogEntry::LookupByOutput') for k_, p_, a in first.edge_facts(bid, i)) and \
+                    not fact_holds(first.facts_at_block(bid), lambda a: mentions_field(a, 'RecomputeOutputsDirtyCache::isRestat_'), True):
+                nh += 1
+                r = first.find_path(None, clean_verdict(first), from_succ=s2, sensitive=False,
+                                    is_blocker=lambda x: x in hashed or (x['k'] == 'ret' and const_value(x.get('e')) == 1),
+                                    edge_ok=lambda b2, i2, s3: not any(p2 is True and mentions_field(a2, 'RecomputeOutputsDirtyCache::generator_')
+                                                                       for k2, p2, a2 in first.edge_facts(b2, i2)))
+                ctx.check('C01.X1', r is None and bool(hashed), first.name, 'X1:command-hash:comparison-skipped', 'src/graph.cc:%s' % first.term(bid)['line'],
+                          'with a log entry, only a generator rule is declared clean without comparing the command hash',
+                          witness=None if r is None else {'blocks': r[0]})
+    ctx.check('C01.X1', nh >= 1, first.name, 'X1:command-hash:no-entry-test', first.loc, 'the first check branches on "a log entry exists"')
     for f in (first, second):
         check_cc(ctx, 'C01.X1', f, ('OUT', 'IN'), '<', effect_returns(1),
                  'output older than the most recent input => dirty', 'CC1:out-vs-in')
         check_cc(ctx, 'C01.X1', f, ('LOG', 'IN'), '<', effect_returns(1),
                  'logged mtime older than the most recent input => dirty', 'CC2:log-vs-in')
-    ctx.floor('C01.X1', 10)
+    ctx.floor('C01.X1', 12)
 
     # ---- CC: remaining comparison contract ------------------------------------------------------
     R('C01.CC', 'CC', 'timestamp comparisons that control a verdict have the documented relation: '
